@@ -44,6 +44,20 @@ CLAIMED = {
             "Trusted: rustc nightly callee resolution; #![forbid(unsafe_code)] (no address-dependent behaviour); "
             "std HashMap/HashSet are the only randomly ordered containers in use; REVIEWED tables in rules/c12.py.",
             "DESIGN.md §4 C12"),
+    "C07": ("exhaustive decision-table extraction by path-sensitive constant propagation over MIR (finite enum "
+            "domain), compared with the documented table; call-graph single-policy rule; path rule for the "
+            "compound-assignment arm",
+            "The space operator x operand kind x exponent kind is finite and is enumerated completely (about 1300 "
+            "cells): result_numeric_type, needs_float_promotion, from_literal_info, AST/IR adapters and their "
+            "commutation with lower_binop, check_binary (checker), binary_result_type (lowering), "
+            "determine_binop_plan (emitter: result type, casts, helper suffix, pow kind), types_compatible on the "
+            "numeric cells, runtime trait impl Output types — each compared with the oracle transcribed from the "
+            "numeric-semantics reference. Every phase is shown to reach the single policy function and the compound "
+            "arm cannot bypass it.",
+            "Trusted: rustc nightly MIR; the transcription of numeric_semantics.md in rules/c07.py::oracle; the "
+            "evaluator's model of derived PartialEq/Clone on field-less enums. Nested expressions are covered "
+            "because each phase applies the same cell function per node (structural induction not mechanised).",
+            "DESIGN.md §4 C07"),
 }
 
 NOT_APPLICABLE = {
